@@ -22,6 +22,8 @@ def rule(tu, rec):
 def rule_elem(tu, rec):
     ck2 = Checker(tu, FilterRec(rec, ("-M2id", "-Q2")), "C08")
     ownership(ck2, discover_owners(tu), "OWN-E")
+    from ..rules_elem import rule_EQ
+    rule_EQ(Checker(tu, rec, "C08"), "EQ1")
 
 
 def configs(tier, seed):
